@@ -7,6 +7,7 @@ import (
 	"os"
 	"path/filepath"
 	"reflect"
+	"strings"
 
 	"github.com/tormoder/fit"
 
@@ -285,6 +286,25 @@ func runC15(w *vx.W) {
 				w.Violation("type-without-constructor", fmt.Sprintf("message %d has a type but no constructor", m), c15Replay{Mesg: uint16(m), What: "tables"})
 			} else if fit.VerifNewMesg(fit.MesgNum(m)).Type() != mt {
 				w.Violation("constructor-type", fmt.Sprintf("message %d: constructor type differs from type table", m), c15Replay{Mesg: uint16(m), What: "tables"})
+			}
+		}
+		// (a message with a Go type and a constructor that is *not* in the known set - gps_metadata on the pinned tree - is
+		// outside the statement: the property speaks about the messages the library claims to know and about the
+		// members of File and of the file containers)
+		// the messages File itself holds (file_id, file_creator, timestamp_correlation, ...) are known
+		ftFile := reflect.TypeOf(fit.File{})
+		for i := 0; i < ftFile.NumField(); i++ {
+			t := ftFile.Field(i).Type
+			for t.Kind() == reflect.Ptr || t.Kind() == reflect.Slice {
+				t = t.Elem()
+			}
+			if t.Kind() != reflect.Struct || !strings.HasSuffix(t.Name(), "Msg") || t.PkgPath() != ftFile.PkgPath() {
+				continue
+			}
+			w.Eval(1)
+			num := uint16(fit.VerifGlobalMesgNum(t))
+			if !p.isKnown[num] || fit.VerifMesgType(fit.MesgNum(num)) != t {
+				w.Violation("file-member-unknown", fmt.Sprintf("File.%s holds %v, which is not registered as known message %d", ftFile.Field(i).Name, t, num), c15Replay{Mesg: num, What: "container"})
 			}
 		}
 		for _, m := range p.rowMesgs {
